@@ -86,7 +86,7 @@ def run_one_slot(bank, path, slot, only=None):
             c = subprocess.run([os.path.join(VERIF, "check"), pid], env=env, capture_output=True, text=True)
             out = c.stdout + c.stderr
             fired = c.returncode == 1 and "VIOLATION property=" + pid in out
-            results[pid] = {"rc": c.returncode, "fired": fired}
+            results[pid] = {"rc": c.returncode, "fired": fired, "rules": sorted(set(re.findall(r"^  rule (R[0-9]+\.[0-9]+)", out, re.M)))}
             if bank == "violations":
                 # the expected rule must be named on a violation line ("  rule R08.1 instance ..." / anchor-lost /
                 # floor), not merely listed among the rules that passed
@@ -208,6 +208,18 @@ def main():
         "benign_total": len([r for r in res if r["bank"] == "benign" and r["status"] != "skipped"]),
         "skipped": len([r for r in res if r["status"] == "skipped"]),
     }
+    if bank in ("all", "violations") and not subs:
+        # which rule is exercised by which seeded violation (a full run only): a rule no mutant makes fire has never
+        # been seen to fire, whatever it claims
+        cov = {}
+        for r in res:
+            if r["bank"] != "violations":
+                continue
+            for pid, v in r.get("results", {}).items():
+                for rid in v.get("rules", []):
+                    cov.setdefault(rid, []).append(r["name"])
+        with open(os.path.join(HERE, "rule_coverage.json"), "w") as fh:
+            json.dump({k: sorted(set(v)) for k, v in sorted(cov.items())}, fh, indent=1)
     print("SELFTEST " + json.dumps(summary))
     return 0 if all(r["status"] != "FAIL" for r in res) else 1
 
